@@ -32,6 +32,105 @@ fn caps_canon(c: &Captures) -> String {
     s
 }
 
+fn seq_find_iter(re: &Regex, text: &str) -> String {
+    let mut s = String::new();
+    for (k, m) in re.find_iter(text).enumerate() {
+        match m {
+            Ok(m) => s.push_str(&format!("[{},{}]", m.start(), m.end())),
+            Err(e) => s.push_str(&format!("E:{};", err_name(&e))),
+        }
+        if k > text.len() + 4 {
+            break;
+        }
+    }
+    s
+}
+
+fn seq_captures_iter0(re: &Regex, text: &str) -> String {
+    let mut s = String::new();
+    for (k, c) in re.captures_iter(text).enumerate() {
+        match c {
+            Ok(c) => match c.get(0) {
+                Some(m) => s.push_str(&format!("[{},{}]", m.start(), m.end())),
+                None => s.push_str("E:group 0 missing;"),
+            },
+            Err(e) => s.push_str(&format!("E:{};", err_name(&e))),
+        }
+        if k > text.len() + 4 {
+            break;
+        }
+    }
+    s
+}
+
+fn coherence(re: &Regex, s: &str, pos: usize) -> String {
+    let mut parts: Vec<String> = Vec::new();
+    let span = |r: fancy_regex::Result<Option<fancy_regex::Match>>| match r {
+        Ok(Some(m)) => format!("M[{},{}]", m.start(), m.end()),
+        Ok(None) => "N".to_string(),
+        Err(e) => format!("E:{}", err_name(&e)),
+    };
+    let cspan = |r: fancy_regex::Result<Option<Captures>>| match r {
+        Ok(Some(c)) => match c.get(0) {
+            Some(m) => format!("M[{},{}]", m.start(), m.end()),
+            None => "M[-]".to_string(),
+        },
+        Ok(None) => "N".to_string(),
+        Err(e) => format!("E:{}", err_name(&e)),
+    };
+    parts.push(format!("find_from_pos={}", span(re.find_from_pos(s, pos))));
+    parts.push(format!("captures_from_pos0={}", cspan(re.captures_from_pos(s, pos))));
+    if pos == 0 {
+        let im = match re.is_match(s) {
+            Ok(b) => format!("{}", b),
+            Err(e) => format!("E:{}", err_name(&e)),
+        };
+        parts.push(format!("is_match={}", im));
+        parts.push(format!("find={}", span(re.find(s))));
+        parts.push(format!("captures0={}", cspan(re.captures(s))));
+        parts.push(format!("find_iter={}", seq_find_iter(re, s)));
+        parts.push(format!("captures_iter0={}", seq_captures_iter0(re, s)));
+    }
+    parts.join(";")
+}
+
+fn meta_canon(re: &Regex, names: &[(String, usize)], s: &str, pos: usize) -> String {
+    let mut parts: Vec<String> = Vec::new();
+    parts.push(format!("captures_len={}", re.captures_len()));
+    match re.captures_from_pos(s, pos) {
+        Ok(Some(c)) => {
+            parts.push(format!("len={}", c.len()));
+            let gets: Vec<String> = (0..c.len() + 2)
+                .map(|i| match c.get(i) {
+                    Some(m) => format!("[{},{}]", m.start(), m.end()),
+                    None => "[-]".to_string(),
+                })
+                .collect();
+            parts.push(format!("get={}", gets.join("")));
+            let iters: Vec<String> = c
+                .iter()
+                .map(|m| match m {
+                    Some(m) => format!("[{},{}]", m.start(), m.end()),
+                    None => "[-]".to_string(),
+                })
+                .collect();
+            parts.push(format!("iter={}", iters.join("")));
+            let nm: Vec<String> = names
+                .iter()
+                .map(|(n, i)| {
+                    let a = c.name(n).map(|m| (m.start(), m.end()));
+                    let b = c.get(*i).map(|m| (m.start(), m.end()));
+                    format!("{}:{}", n, if a == b { "same" } else { "DIFFERENT" })
+                })
+                .collect();
+            parts.push(format!("name={}", nm.join(",")));
+        }
+        Ok(None) => parts.push("N".to_string()),
+        Err(e) => parts.push(format!("E:{}", err_name(&e))),
+    }
+    parts.join(";")
+}
+
 fn build(pattern: &str, casei: bool, limit: Option<usize>) -> Result<Regex, String> {
     let mut b = RegexBuilder::new(pattern);
     if casei {
@@ -138,8 +237,172 @@ fn run(op: &str, re: &Regex, text: &str, pos: usize, arg: usize) -> String {
             }
         }
         "captures_len" => format!("{}", re.captures_len()),
+        "coherence" => coherence(re, text, pos),
+        "captures_meta" => {
+            let mut names: Vec<(String, usize)> =
+                re.capture_names().enumerate().filter_map(|(i, n)| n.map(|s| (s.to_string(), i))).collect();
+            names.sort();
+            meta_canon(re, &names, text, pos)
+        }
+        "names_meta" => {
+            let names: Vec<Option<String>> = re.capture_names().map(|n| n.map(|s| s.to_string())).collect();
+            format!("{};{:?}", re.captures_len(), names)
+        }
+        "search_vs_regex" => {
+            let mine = run("search", re, text, pos, arg);
+            let theirs = match regex::Regex::new(re.as_str()) {
+                Err(e) => format!("REGEX-ERR:{}", e),
+                Ok(rr) => match rr.captures_at(text, pos) {
+                    None => "N".to_string(),
+                    Some(c) => {
+                        let mut s = String::from("M");
+                        for i in 0..c.len() {
+                            match c.get(i) {
+                                None => s.push_str("[-]"),
+                                Some(m) => s.push_str(&format!("[{},{}]", m.start(), m.end())),
+                            }
+                        }
+                        s
+                    }
+                },
+            };
+            format!("{}|{}", mine, theirs)
+        }
         _ => format!("UNKNOWN-OP {}", op),
     }
+}
+
+/// Operations that do not work on a single built regex.
+fn special(op: &str, pattern: &str, casei: bool, limit: Option<usize>, text: &str, pos: usize, arg: usize) -> Option<String> {
+    match op {
+        "search_pair" => {
+            let mut it = pattern.split('\u{1}');
+            let a = it.next().unwrap_or("");
+            let b = it.next().unwrap_or("");
+            let ra = match build(a, casei, limit) {
+                Err(e) => format!("BUILD-ERR:{}", e),
+                Ok(re) => run("search", &re, text, pos, arg),
+            };
+            let rb = match build(b, false, limit) {
+                Err(e) => format!("BUILD-ERR:{}", e),
+                Ok(re) => run("search", &re, text, pos, arg),
+            };
+            Some(format!("{}|{}", ra, rb))
+        }
+        "build" => Some(match build(pattern, casei, limit) {
+            Ok(_) => "OK".to_string(),
+            Err(e) => format!("ERR:{}", e),
+        }),
+        "build_pair" => {
+            let mut it = pattern.split('\u{1}');
+            let a = it.next().unwrap_or("");
+            let b = it.next().unwrap_or("");
+            let f = |p: &str, ci: bool| if build(p, ci, limit).is_ok() { "OK" } else { "ERR" };
+            Some(format!("{}|{}", f(a, casei), f(b, false)))
+        }
+        "tree_pair" => {
+            let mut it = pattern.split('\u{1}');
+            let a = it.next().unwrap_or("");
+            let b = it.next().unwrap_or("");
+            match (fancy_regex::Expr::parse_tree(a), fancy_regex::Expr::parse_tree(b)) {
+                (Ok(x), Ok(y)) => Some(if x.expr == y.expr { "EQ".to_string() } else { "NE".to_string() }),
+                _ => Some("PARSE-ERR".to_string()),
+            }
+        }
+        "escape" => {
+            let e = fancy_regex::escape(pattern);
+            let borrowed = matches!(e, std::borrow::Cow::Borrowed(_));
+            Some(format!("{}:{}", if borrowed { "B" } else { "O" }, e))
+        }
+        "state_history" => Some(state_history(pattern)),
+        _ => None,
+    }
+}
+
+#[cfg(not(fancy_regex_verif))]
+fn state_history(_spec: &str) -> String {
+    "NO-HOOKS".to_string()
+}
+
+/// Drive the real backtracking state (through the cfg-guarded wrapper in /repo) with a
+/// recorded operation history and compare it step by step with a whole-state-copy model.
+#[cfg(fancy_regex_verif)]
+fn state_history(spec: &str) -> String {
+    use fancy_regex::internal::verif_hooks::VState;
+    let mut it = spec.split('\u{1}');
+    let n: usize = it.next().unwrap_or("0").parse().unwrap_or(0);
+    let hist = it.next().unwrap_or("");
+    let mut st = VState::new(n, 1_000_000);
+    let mut cur: Vec<usize> = vec![usize::MAX; n];
+    let mut aux: Vec<usize> = Vec::new();
+    let mut stack: Vec<(usize, usize, Vec<usize>, Vec<usize>)> = Vec::new();
+    for (k, op) in hist.split(';').enumerate() {
+        if op.is_empty() {
+            continue;
+        }
+        let (c, rest) = op.split_at(1);
+        let nums: Vec<usize> = rest.split(',').filter(|x| !x.is_empty()).map(|x| x.parse().unwrap()).collect();
+        match c {
+            "P" => {
+                st.push(nums[0], nums[1]);
+                stack.push((nums[0], nums[1], cur.clone(), aux.clone()));
+            }
+            "Q" => {
+                let got = st.pop();
+                match stack.pop() {
+                    None => return format!("MISMATCH at step {}: pop on empty model", k),
+                    Some((pc, ix, c0, a0)) => {
+                        if got != (pc, ix) {
+                            return format!("MISMATCH at step {}: pop returned {:?}, created as {:?}", k, got, (pc, ix));
+                        }
+                        cur = c0;
+                        aux = a0;
+                    }
+                }
+            }
+            "S" => {
+                st.save(nums[0], nums[1]);
+                cur[nums[0]] = nums[1];
+            }
+            "K" => {
+                st.stack_push(nums[0]);
+                aux.push(nums[0]);
+            }
+            "L" => {
+                let got = st.stack_pop();
+                let want = aux.pop();
+                if Some(got) != want {
+                    return format!("MISMATCH at step {}: auxiliary pop returned {}, model {:?}", k, got, want);
+                }
+            }
+            "C" => {
+                st.backtrack_cut(nums[0]);
+                stack.truncate(nums[0]);
+            }
+            _ => return format!("BAD-OP {}", op),
+        }
+        for i in 0..n {
+            if st.get(i) != cur[i] {
+                return format!("MISMATCH at step {} ({}): slot {} is {}, model {}", k, op, i, st.get(i), cur[i]);
+            }
+        }
+        if st.backtrack_count() != stack.len() {
+            return format!("MISMATCH at step {} ({}): {} alternatives, model {}", k, op, st.backtrack_count(), stack.len());
+        }
+    }
+    // unwind everything that is left: every abandoned alternative must restore its state
+    while let Some((pc, ix, c0, _a0)) = stack.pop() {
+        let got = st.pop();
+        if got != (pc, ix) {
+            return format!("MISMATCH at unwind: pop returned {:?}, created as {:?}", got, (pc, ix));
+        }
+        for i in 0..n {
+            if st.get(i) != c0[i] {
+                return format!("MISMATCH at unwind: slot {} is {}, model {}", i, st.get(i), c0[i]);
+            }
+        }
+    }
+    "OK".to_string()
 }
 
 fn main() {
@@ -159,10 +422,10 @@ fn main() {
         let text = unhex(f[4]);
         let pos: usize = f[5].parse().unwrap();
         let arg: usize = f[6].parse().unwrap();
-        let out = catch_unwind(AssertUnwindSafe(|| match build(&pattern, casei, limit) {
+        let out = catch_unwind(AssertUnwindSafe(|| special(op, &pattern, casei, limit, &text, pos, arg).unwrap_or_else(|| match build(&pattern, casei, limit) {
             Err(e) => format!("BUILD-ERR:{}", e),
             Ok(re) => run(op, &re, &text, pos, arg),
-        }));
+        })));
         match out {
             Ok(s) => println!("{}", s),
             Err(_) => println!("PANIC"),
